@@ -43,6 +43,9 @@ use miniscript::{
 use crate::ast::{self, CtxK, Node, HK};
 use crate::common::{Out, Rng};
 
+#[path = "c19x.rs"]
+mod c19x;
+
 /* ------------------------------------------------------------ construction (String keys) */
 
 fn key_str(k: u32) -> String { format!("K{:05}", k) }
@@ -849,6 +852,7 @@ pub fn run(out: &mut Out, thorough: bool, seed: u64) {
     let ss = str_items::<Semantic<String>>(&semantic_strings(), e.out, "semantic");
     // `Semantic` implements no `Hash`: the hash column is vacuous ("same" iff equal)
     emit_str_family(&mut e, "semantic", &ss, &mut rng, if thorough { 3000 } else { 500 }, &|a, b| a == b);
+    c19x::run(&mut e, thorough, &mut rng);
     e.out.note("distinct_nontrivial", n_inputs.to_string());
     e.out.note("domain", "per context: enumerated fragments (depth 2, all base types) + random larger ones, each vs itself, vs its one-edit neighbours (k, arity, leaf, sorted/unsorted, wrapper, sugar, child order) and vs random others; triples inside neighbourhoods, random, and along library-sorted chains; string-built descriptors (wsh/sh/sh-wsh/tr/pkh/wpkh), Tr with/without cache, concrete and semantic policies: all pairs + random triples".into());
 }
